@@ -203,6 +203,8 @@ func checkC10(c *core.Ctx) {
 	checkErrorRecording(c, p)
 	// ---- R7
 	checkBlockCommentLength(c, p)
+	// ---- R10
+	checkPushbackOwners(c, p)
 	// ---- R8
 	checkParserBounds(c, p, "R8")
 	// ---- R9
@@ -1130,4 +1132,52 @@ func isEOFTest(info *types.Info, e ast.Expr) bool {
 		return true
 	}
 	return false
+}
+
+
+// checkPushbackOwners: R10. keepNextToken is the tokenizer's one-token
+// push-back. A parser function that clears it discards whatever a callee put
+// back (readConst ends in optNewline, which puts back the first token of the
+// next definition): the token vanishes and the definition it starts is skipped
+// without an error. Who may write the flag is a frozen table, confirmed by
+// reading, one reason each.
+func checkPushbackOwners(c *core.Ctx, p *load.Prog) {
+	pkg := p.Bebop()
+	info := pkg.TypesInfo
+	allowed := map[string]string{
+		"tokenReader.UnNext": "the push-back itself",
+		"tokenReader.Token":  "re-delivers the token after injecting an optional semicolon",
+		"tokenReader.next":   "consumes the push-back when the token is delivered again",
+		"tokenReader.Next":   "delegates to next",
+		"readUnion":          "a field-less member leaves its own '}' pushed back; it is dropped right before the Next() that must not see it (fix 903b076)",
+	}
+	n := 0
+	for fn, fd := range p.AllDecls() {
+		if p.Owner(fn) != pkg || fd.Body == nil {
+			continue
+		}
+		name := load.FuncName(fn)
+		ast.Inspect(fd.Body, func(nd ast.Node) bool {
+			as, ok := nd.(*ast.AssignStmt)
+			if !ok {
+				return true
+			}
+			for _, l := range as.Lhs {
+				sel, ok := ast.Unparen(l).(*ast.SelectorExpr)
+				if !ok || sel.Sel.Name != "keepNextToken" {
+					continue
+				}
+				if t := info.TypeOf(sel.X); t == nil || !strings.HasSuffix(t.String(), ".tokenReader") {
+					continue
+				}
+				n++
+				_, ok = allowed[name]
+				c.Check("R10", "the token push-back flag is written by "+name, p.Pos(as.Pos()), ok,
+					name+" writes tokenReader.keepNextToken: outside the tokenizer (and the one confirmed site in readUnion) clearing it throws away a token a callee pushed back — the definition that token starts is then skipped without an error")
+			}
+			return true
+		})
+	}
+	c.Count("pushback_flag_writes", n)
+	c.Floor("pushback_flag_writes", 2)
 }
